@@ -367,10 +367,12 @@ pub fn check(prop: &str, tier: Tier, seed: u64) -> CheckReport {
             Tier::Quick => spec.quick_runs,
             Tier::Thorough => spec.thorough_runs,
         });
-    let wall_budget = Duration::from_secs(match tier {
-        Tier::Quick => spec.quick_wall_s,
-        Tier::Thorough => spec.thorough_wall_s,
-    });
+    let wall_budget = Duration::from_secs(
+        std::env::var("VERIF_WALL_S").ok().and_then(|s| s.parse::<u64>().ok()).unwrap_or(match tier {
+            Tier::Quick => spec.quick_wall_s,
+            Tier::Thorough => spec.thorough_wall_s,
+        }),
+    );
     let deadline = Some(t0 + wall_budget);
     let seeds: Vec<u64> =
         (0..runs).map(|i| seed.wrapping_mul(1_000_000).wrapping_add(i)).collect();
